@@ -65,17 +65,24 @@ def call_is_inside(shape, pts):
             return None, exc_kind(e) + ":" + str(e)[:120].replace("\n", " ")
 
 
-def check_batching(ctx, cls, shape, P, full, case, rng):
-    """shapes (3,) and (N,3), list input, sub-batches: element by element and in input order."""
+def check_batching(ctx, cls, shape, P, full, case, rng, judged=None):
+    """shapes (3,) and (N,3), list input, sub-batches: element by element and in input order.
+    Only points that are not within the margin of a decision boundary are compared (a batch goes through a
+    different BLAS kernel than a single row, so an on-boundary point may legitimately flip)."""
     n = len(P)
     if full.shape != (n,) or full.dtype != np.bool_:
         ctx.fail(cls + ".is_inside:result-shape", "result is not a boolean array of shape (N,)",
                  slim(case, []), [list(full.shape), str(full.dtype)])
         return
-    idx = rng.choice(n, size=min(n, 6), replace=False)
+    judged = np.ones(n, dtype=bool) if judged is None else np.asarray(judged, dtype=bool)
+    cand = np.nonzero(judged)[0]
+    if len(cand) == 0:
+        cand = np.arange(n)
+        judged = np.zeros(n, dtype=bool)
+    idx = rng.choice(cand, size=min(len(cand), 6), replace=False)
     for i in idx:
         r1, err = call_is_inside(shape, P[i])  # shape (3,)
-        if err is not None or r1.shape != (1,) or bool(r1[0]) != bool(full[i]):
+        if err is not None or r1.shape != (1,) or (judged[i] and bool(r1[0]) != bool(full[i])):
             ctx.fail(cls + ".is_inside:batch-vs-single", "single-point call (shape (3,)) differs from the batch entry",
                      slim(case, [int(i)], batch=True), [int(i), err, None if r1 is None else r1.tolist(), bool(full[i])])
             return
@@ -83,8 +90,8 @@ def check_batching(ctx, cls, shape, P, full, case, rng):
     k = int(rng.integers(1, n + 1))
     sub = rng.permutation(n)[:k]
     r2, err = call_is_inside(shape, P[sub].tolist())
-    if err is not None or r2.shape != (k,) or not np.array_equal(r2, full[sub]):
-        bad = None if r2 is None or r2.shape != (k,) else [int(sub[j]) for j in np.nonzero(r2 != full[sub])[0][:5]]
+    if err is not None or r2.shape != (k,) or not np.array_equal(r2[judged[sub]], full[sub][judged[sub]]):
+        bad = None if r2 is None or r2.shape != (k,) else [int(sub[j]) for j in np.nonzero((r2 != full[sub]) & judged[sub])[0][:5]]
         ctx.fail(cls + ".is_inside:batch-vs-single", "a permuted sub-batch differs from the full batch (input order)",
                  slim(case, sub.tolist()[:50], batch=True), [err, bad])
 
@@ -183,7 +190,8 @@ def sphero_oracle(ctx, v, hull, smax, P, size, r):
     dmin = dist[np.arange(n), k]
     wk = w[np.arange(n), k]
     d = np.where(smax <= 0, 0.0, dmin)
-    near = np.nonzero((smax > 0) & (d <= r - m))[0]
+    # the closest boundary point is a point of the hull: dmin bounds the distance from above for every point
+    near = np.nonzero((smax > -MARGIN * size) & (dmin <= r - m))[0]
     far = np.nonzero((smax > 0) & (d >= r + m))[0]
     core = np.nonzero(smax <= -MARGIN * size)[0]
     if len(near):
@@ -286,6 +294,12 @@ def sphero_points(rng, v, hull, r, n):
     for k, s in enumerate(hull.simplices):
         for a in s:
             vfac.setdefault(int(a), []).append(k)
+    # points ON the core's surface (up to rounding): a full r inside the rounded surface when r > 0
+    for _ in range(30 if r > 0 else 0):
+        k = int(rng.integers(len(hull.simplices)))
+        w = rng.dirichlet(np.ones(3) * float(rng.choice([0.3, 1.0, 3.0])))
+        pts.append(w @ v[hull.simplices[k]])
+        lab.append("sphero-core-surface")
     for _ in range(n):
         rel = float(rng.choice([1e-5, 1e-3, 3e-2, 0.3]))
         fac = (1 + rel) if rng.random() < 0.5 else max(1 - rel, 0.0)
@@ -415,15 +429,15 @@ def contract_planes(ctx, name, eqs, v, size):
         ctx.contract_failures.append({"contract": name + ": every vertex on the inner side of every plane", "got": worst})
 
 
-def compare_expect(ctx, cls, res, expect, case, labels, what_in, what_out):
+def compare_expect(ctx, cls, res, expect, case, labels, what_in, what_out, suffix=""):
     bad_in = np.nonzero((expect == 1) & ~res)[0]
     bad_out = np.nonzero((expect == 0) & res)[0]
     if len(bad_in):
         i = int(bad_in[0])
-        ctx.fail("%s.is_inside:inside-point-rejected" % cls, what_in, slim(case, [i]), [i, labels[i], len(bad_in)])
+        ctx.fail("%s.is_inside:inside-point-rejected%s" % (cls, suffix), what_in, slim(case, [i]), [i, labels[i], len(bad_in)])
     if len(bad_out):
         i = int(bad_out[0])
-        ctx.fail("%s.is_inside:outside-point-accepted" % cls, what_out, slim(case, [i]), [i, labels[i], len(bad_out)])
+        ctx.fail("%s.is_inside:outside-point-accepted%s" % (cls, suffix), what_out, slim(case, [i]), [i, labels[i], len(bad_out)])
 
 
 def eval_convex(ctx, case):
@@ -456,7 +470,7 @@ def eval_convex(ctx, case):
         compare_expect(ctx, "ConvexPolyhedron", res, expect, case, labels,
                        "a point with explicit convex weights (inside the hull by >= 1e-7 size) is reported outside",
                        "a point separated from all vertices by a plane (by >= 1e-7 size) is reported inside")
-        check_batching(ctx, "ConvexPolyhedron", cp, P, res, case, rng)
+        check_batching(ctx, "ConvexPolyhedron", cp, P, res, case, rng, expect >= 0)
         m = ctx.driver.F("in3.cp", L([e for e in eqs]), L(list(P)))
         dist = (P @ eqs[:, :3].T + eqs[:, 3]).max(axis=1)
         nearb = np.abs(dist) < MARGIN * size
@@ -467,17 +481,31 @@ def eval_convex(ctx, case):
     # ---------------- Polyhedron (winding number) on the same mesh
     res, err = call_is_inside(ph, P)
     if err is not None:
-        ctx.fail("Polyhedron.is_inside:raises:convex-mesh", "is_inside raised on a convex mesh", slim(case, []), err)
+        poly_raise(ctx, case, err, "convex-mesh")
     else:
         compare_expect(ctx, "Polyhedron", res, expect, case, labels,
                        "winding test rejects a point of the solid (convex mesh)",
                        "winding test accepts a point outside the solid (convex mesh)")
-        check_batching(ctx, "Polyhedron", ph, P, res, case, rng)
+        check_batching(ctx, "Polyhedron", ph, P, res, case, rng, expect >= 0)
         tris = np.array(list(ph._surface_triangulation()), dtype=float)
         poly_correspondence(ctx, tris, P, res, case, size, smax)
 
     # ---------------- ConvexSpheropolyhedron
     eval_sphero(ctx, case, sp, cp, v, hull, smax, P, labels, size, r, rng)
+
+
+def poly_raise(ctx, case, err, kind):
+    """Polyhedron.is_inside raised on a valid mesh: stable signatures for the two polytri failure modes."""
+    if "Triangulation failed" in err:
+        ctx.fail("Polyhedron.is_inside:raises:polytri-triangulation-failed",
+                 "is_inside raised 'Triangulation failed' (polytri) on a valid mesh (faces with non-adjacent collinear edges, rotated)",
+                 slim(case, [0]), err)
+    elif "No normal found" in err:
+        ctx.fail("Polyhedron.is_inside:raises:polytri-no-normal",
+                 "is_inside raised 'No normal found' (polytri absolute near_zero test) on a valid mesh with small faces",
+                 slim(case, [0]), err)
+    else:
+        ctx.fail("Polyhedron.is_inside:raises:" + kind, "is_inside raised on a valid mesh", slim(case, [0]), err)
 
 
 def poly_correspondence(ctx, tris, P, res, case, size, bdist):
@@ -546,10 +574,17 @@ def eval_sphero(ctx, case, sp, cp, v, hull, smax, P0, labels0, size, r, rng):
                  "is_inside raised (%s)" % err.split(":")[0] + (" for rounding radius 0 and a point outside the core" if r == 0 else ""),
                  slim(scase, [int(np.argmax(smax))]), err)
     else:
-        compare_expect(ctx, cls, res, expect, scase, labels,
+        onsurf = np.abs(smax) < MARGIN * size
+        e1 = np.where(onsurf, -1, expect)
+        compare_expect(ctx, cls, res, e1, scase, labels,
                        "a point within r (by >= 1e-7 size) of an explicit point of the core is reported outside",
                        "a point whose distance to the core exceeds r (by >= 1e-7 size, KKT-certified) is reported inside")
-        check_batching(ctx, cls, sp, P, res, scase, rng)
+        e2 = np.where(onsurf, expect, -1)
+        compare_expect(ctx, cls, res, e2, scase, labels,
+                       "a point ON the core's surface (|signed distance| < 1e-7 size, so r inside the rounded surface) is "
+                       "reported outside: seam between the core test and the extruded prism's base plane",
+                       "a point on the core's surface is reported inside although r < 0 margin", suffix=":core-surface")
+        check_batching(ctx, cls, sp, P, res, scase, rng, expect >= 0)
     # ---- B
     args = [float(r), L([e for e in eqs]), L([L(list(f)) for f in faces])]
     if prisms is None:
@@ -628,17 +663,12 @@ def eval_solid(ctx, case):
     res, err = call_is_inside(ph, P)
     kind = solid["kind"].split(":")[0]
     if err is not None:
-        if "Triangulation failed" in err:
-            ctx.fail("Polyhedron.is_inside:raises:polytri-triangulation-failed",
-                     "is_inside raised 'Triangulation failed' (polytri) on a valid mesh whose caps have non-adjacent collinear edges",
-                     slim(case, [0]), err)
-        else:
-            ctx.fail("Polyhedron.is_inside:raises:" + kind, "is_inside raised on a valid non-convex mesh", slim(case, []), err)
+        poly_raise(ctx, case, err, kind)
         return
     compare_expect(ctx, "Polyhedron", res, expect, case, labels,
                    "winding test rejects a point of the solid (non-convex mesh, point in a closed cell/prism of the decomposition)",
                    "winding test accepts a point outside the solid (non-convex mesh)")
-    check_batching(ctx, "Polyhedron", ph, P, res, case, rng)
+    check_batching(ctx, "Polyhedron", ph, P, res, case, rng, expect >= 0)
     tris = np.array(list(ph._surface_triangulation()), dtype=float)
     poly_correspondence(ctx, tris, P, res, case, size, bdist * pl["s"])
 
@@ -681,7 +711,7 @@ def eval_curved(ctx, case):
         return
     compare_expect(ctx, cls, res, expect, case, labels, "a point with " + what + " (exactly) is reported outside",
                    "a point violating " + what + " (exactly) is reported inside")
-    check_batching(ctx, cls, shape, P, res, case, rng)
+    check_batching(ctx, cls, shape, P, res, case, rng, expect >= 0)
     mism = np.nonzero((np.array(model) != res) & ~nearb)[0]
     if len(mism):
         ctx.disagree("in3." + cls.lower(), slim(case, [int(mism[0])]), [int(mism[0]), bool(res[mism[0]])])
